@@ -158,6 +158,7 @@ def obligations(ctx, cfg):
     obs = [HasSpace(), Race(ctx, ['dec']), Race(ctx, ['inc']), TwoWaiters()]
     if cfg['tier'] == 'thorough':
         obs.append(Race(ctx, ['dec', 'inc']))
+        obs.append(Race(ctx, ['dec', 'dec']))
     return obs
 
 
